@@ -148,8 +148,11 @@ Proof.
     apply andb_true_iff in OK as [T OK]. cbn [sem]. rewrite (IH U OK). symmetry.
     apply filter_map_comm. intros r Hr. eapply passes_project_through; eauto.
   - (* Return *)
-    apply andb_true_iff in OK as [T OK]. cbn [sem]. rewrite (IH U OK). symmetry.
-    apply filter_map_comm. intros r Hr. eapply passes_project_through; eauto.
+    apply andb_true_iff in OK as [T OK]. cbn [sem]. rewrite (IH U OK).
+    assert (map (project_row G items) (filter (passes G e) (sem G inp))
+            = filter (passes G e) (map (project_row G items) (sem G inp))) as E
+      by (symmetry; apply filter_map_comm; intros r Hr; eapply passes_project_through; eauto).
+    rewrite E. unfold return_rows. destruct dd; [symmetry; apply filter_dedup|reflexivity].
   - (* Join *)
     apply andb_true_iff in U as [Ul Ur].
     destruct (uses_any (expr_vars e) (out_vars pl) && negb (uses_any (expr_vars e) (out_vars pr))).
@@ -262,8 +265,11 @@ Proof.
     apply filter_map_comm. intros r Hr. eapply passes_project_through; eauto.
   - (* Return *)
     destruct (all_passed (expr_vars e) items); [|reflexivity].
-    apply andb_true_iff in OK as [T OK]. cbn [sem]. rewrite (IH U OK). symmetry.
-    apply filter_map_comm. intros r Hr. eapply passes_project_through; eauto.
+    apply andb_true_iff in OK as [T OK]. cbn [sem]. rewrite (IH U OK).
+    assert (map (project_row G items) (filter (passes G e) (sem G inp))
+            = filter (passes G e) (map (project_row G items) (sem G inp))) as E
+      by (symmetry; apply filter_map_comm; intros r Hr; eapply passes_project_through; eauto).
+    rewrite E. unfold return_rows. destruct dd; [symmetry; apply filter_dedup|reflexivity].
   - (* Join *)
     apply andb_true_iff in U as [Ul Ur].
     destruct (uses_any (expr_vars e) (out_vars_fix pl) && negb (uses_any (expr_vars e) (out_vars_fix pr))).
